@@ -13,7 +13,8 @@
    pinned code has a defect, the full statement is a Definition with a [_refuted] witness. *)
 From Coq Require Import ZArith NArith Bool List.
 Import ListNotations.
-From TP Require Import Base.PyVal Ser.Mappers Ser.MappersProofs Ser.MappersRoundTripProofs Ser.MappersCacheProofs.
+From TP Require Import Base.PyVal Ser.Mappers Ser.MappersProofs Ser.MappersRoundTripProofs Ser.MappersCacheProofs
+     Gen.MapperSites Ser.MapperSitesOk.
 
 (* the aggregated mapper (either direction), for ANY mapper list and class, maps every field to
    its rename chain (DoNotSerialize when the chain drops it) *)
@@ -165,6 +166,27 @@ Theorem C07_cache_key_without_override_refuted :
   exists rs, serve_with key_no_override tableI [] rs <> map (fresh tableI) rs.
 Proof. exact key_without_override_refuted. Qed.
 
+(* the model performs the nested-mapper lookups / stores / enum dispatch that Gen/MapperSites.v
+   records from the CURRENT source (regenerated on every run): order of the two "._mapper" lookups
+   in construct_fields_map and add_mapper_to_aggregation, the single lookup of serialize_internal,
+   the key a nested mapper is stored under, TO_CAMELCASE / TO_LOWERCASE -> camel / upper *)
+Theorem C07_model_follows_source_sites :
+  (forall dm mapped field, deser_sub_lookup dm mapped field = lookup_roles site_deser dm mapped field) /\
+  (forall d mapped field, sub_of (MDict d) mapped field = classify_sub (lookup_roles site_agg d mapped field)) /\
+  (forall rec am k v acc mapped,
+      ser_step rec am (k, v) acc =
+      match alist_get am k with
+      | Some DoNot => Ok acc
+      | e => let key := match e with Some (Key s) => s | _ => k end in
+             y <- rec (lookup_roles site_ser am mapped k) v ;; Ok (alist_set acc key y)
+      end) /\
+  writes_agg = [RMapped; RMapped] /\ writes_base = [RField; RField; RField] /\
+  (forall m name s, enum_name m = Some name ->
+      exists f, dispatch_of name enum_dispatch = Some f /\
+                strfun_apply f s = Some (match apply_key m s with Key t => t | _ => s end)) /\
+  camelcase_shape_ok = true.
+Proof. exact sites_ok. Qed.
+
 (* the full round trip is false of the pinned code: (a) an unpopulated field named like another
    field's key captures its value; (b) two levels down the deserialization mapper is re-aggregated *)
 Theorem C07_roundtrip_full_refuted : ~ roundtrip_full.
@@ -202,6 +224,7 @@ Print Assumptions C07_cache_transparent.
 Print Assumptions C07_cache_transparent_from_empty.
 Print Assumptions C07_cache_key_without_flag_refuted.
 Print Assumptions C07_cache_key_without_override_refuted.
+Print Assumptions C07_model_follows_source_sites.
 Print Assumptions C07_roundtrip_full_refuted.
 Print Assumptions C07_roundtrip_depth2_refuted.
 Print Assumptions C07_wrapper_rejects_nonfield.
